@@ -110,7 +110,12 @@ impl Task {
             }
 
             // run command, wait for status
-            let status = command.status().expect("executing command");
+            let status = command.status().map_err(|e| {
+                anyhow!(
+                    "cannot execute task command in \"{}\": {e}",
+                    command.get_current_dir().unwrap_or(start_dir).display()
+                )
+            });
 
             if self.ignore_ctrl_c {
                 EXIT_ON_SIGINT
@@ -120,7 +125,7 @@ impl Task {
                     .store(true, std::sync::atomic::Ordering::SeqCst);
             }
 
-            if !status.success() {
+            if !status?.success() {
                 return Err(anyhow!("task failed"));
             }
         }
